@@ -505,7 +505,7 @@ func hook(c rescorr.Case, ms *yang.Modules, errs []error, out *rescorr.GoOut) {
 		out.Extra["want"] = append(out.Extra["want"], want)
 		out.Extra["kind"] = append(out.Extra["kind"], q.kind+" "+limit)
 		if q.kind != "create" && q.kind != "unknown-prefix" && (dn != 0 || de != 0) {
-			add(fmt.Sprintf("Find(%q) from %s/%s changed the trees: %+d nodes, %+d errors", q.path, w.trees[st.tree].ref, encSteps(st.steps), dn, de))
+			add(fmt.Sprintf("Find(%q) from %s changed the trees: %+d nodes, %+d errors", q.path, readableLoc(w.trees[st.tree].ref+"/"+encSteps(st.steps)+"/"+lib.HexS(st.e.Path())), dn, de))
 		}
 	}
 	out.Extra["n"] = []string{strconv.Itoa(N), strconv.Itoa(nReadOnly)}
